@@ -708,6 +708,9 @@ pub enum TrackerOp {
     Take(String),
     /// find_field_with_variant_sequential_constrained(base, constraints)
     Find(String, Option<Vec<String>>),
+    /// mark_consumed(tag, position of the k-th occurrence in input order): consumption out of order,
+    /// as the library's own sequence parsing does
+    Mark(String, usize),
 }
 
 /// result of one op: (key, value, position) or None
@@ -739,6 +742,17 @@ pub fn run_tracker(map: &FMap, ops: &[TrackerOp]) -> LibResult<Vec<TrackerRes>> 
                         tr.mark_consumed(tag, *p);
                     }
                     out.push(r);
+                }
+                TrackerOp::Mark(tag, k) => {
+                    let r = h.get(tag).and_then(|vals| {
+                        let mut ps: Vec<(String, usize)> = vals.clone();
+                        ps.sort_by_key(|x| x.1);
+                        ps.get(*k).cloned()
+                    });
+                    if let Some((_, p)) = &r {
+                        tr.mark_consumed(tag, *p);
+                    }
+                    out.push(r.map(|(v, p)| (tag.clone(), v, p)));
                 }
                 TrackerOp::Find(base, cons) => {
                     let cv: Option<Vec<&str>> = cons
